@@ -84,7 +84,7 @@ theorem splitSlash_of_no_slash (l : List Char) (h : '/' ∉ l) : splitSlash l = 
 /-- so `file_dict_path.join(name)` is the directory itself (empty name) or a direct child of it -/
 theorem fileDictPath_inside (P : Paths) (doc : List Char) :
     fileDictPath P doc = P.fileDir ∨
-    ∃ n, n ≠ [] ∧ '/' ∉ n ∧ n ≠ ['.', '.'] ∧ fileDictPath P doc = P.fileDir ++ [n] := by
+    ∃ n, n ≠ [] ∧ '/' ∉ n ∧ n ≠ ['.', '.'] ∧ n ≠ ['.'] ∧ fileDictPath P doc = P.fileDir ++ [n] := by
   obtain ⟨h1, h2, h3, _⟩ := fileDictName_single_component doc
   unfold fileDictPath joinName
   have hhead : (fileDictName doc).head? ≠ some '/' := by
@@ -98,7 +98,70 @@ theorem fileDictPath_inside (P : Paths) (doc : List Char) :
   by_cases he : fileDictName doc = []
   · left; simp [he]
   · right
-    exact ⟨fileDictName doc, he, h1, h2, by simp [he, h3]⟩
+    exact ⟨fileDictName doc, he, h1, h2, h3, by simp [he, h3]⟩
+
+/-- the name is empty exactly for the root path (no normal component: `/`, `//`, `/./.`) -/
+theorem fileDictName_eq_nil_iff (p : List Char) : fileDictName p = [] ↔ components p = [] := by
+  unfold fileDictName
+  cases components p with
+  | nil => simp
+  | cons c cs => simp
+
+theorem mem_mkParent {q : Path} {x : Eff} : x ∈ mkParent q ↔ x = .mkdirs (parent q) ∧ q ≠ [] := by
+  cases q with
+  | nil => simp [mkParent, parent?]
+  | cons c cs => simp [mkParent, parent?]
+
+theorem mem_saveDictEff {q : Path} {x : Eff} :
+    x ∈ saveDictEff q ↔ (x = .mkdirs (parent q) ∧ q ≠ []) ∨ x = .createFile q := by
+  simp [saveDictEff, mem_mkParent]
+
+theorem mem_saveStatsEff {q : Path} {x : Eff} :
+    x ∈ saveStatsEff q ↔ (x = .mkdirs (parent q) ∧ q ≠ []) ∨ x = .appendFile q := by
+  simp [saveStatsEff, mem_mkParent]
+
+/-- the root path: no `mkdir`, only the (failing) attempt to create `/` as a file -/
+theorem saveDictEff_root : saveDictEff [] = [.createFile []] := rfl
+
+theorem mem_nonRootPrefixes {p q : Path} : q ∈ nonRootPrefixes p ↔ q ≠ [] ∧ q <+: p := by
+  induction p generalizing q with
+  | nil => simp [nonRootPrefixes]
+  | cons c cs ih =>
+    simp only [nonRootPrefixes, List.mem_cons, List.mem_map]
+    constructor
+    · rintro (rfl | ⟨r, hr, rfl⟩)
+      · exact ⟨by simp, by simp [List.prefix_cons_iff]⟩
+      · exact ⟨by simp, by simpa [List.cons_prefix_cons] using (ih.mp hr).2⟩
+    · rintro ⟨hne, hpre⟩
+      cases q with
+      | nil => exact absurd rfl hne
+      | cons a as =>
+        obtain ⟨rfl, has⟩ := List.cons_prefix_cons.mp hpre
+        by_cases h0 : as = []
+        · left; rw [h0]
+        · right; exact ⟨as, ih.mpr ⟨h0, has⟩, rfl⟩
+
+/-- `p` itself is among what `mkdirs p` can create (unless `p` is the root, which exists) -/
+theorem self_mem_nonRootPrefixes {p : Path} (h : p ≠ []) : p ∈ nonRootPrefixes p :=
+  mem_nonRootPrefixes.mpr ⟨h, List.prefix_refl p⟩
+
+/-- what the driver reports as created directories is, up to `..` resolution, among what the
+`mkdirs` effects may create, and was not there before -/
+theorem mem_dirsCreated {existing : List Path} {es : List Eff} {q : Path}
+    (h : q ∈ dirsCreated existing es) :
+    (∃ d, Eff.mkdirs d ∈ es ∧ ∃ r ∈ (Eff.mkdirs d).created, q = normDots [] r) ∧
+    q ≠ [] ∧ ∀ x ∈ existing, ¬ q <+: x := by
+  unfold dirsCreated at h
+  simp only [List.mem_filter, List.mem_map, List.mem_flatMap, Bool.and_eq_true, Bool.not_eq_true',
+    List.any_eq_false, List.isEmpty_eq_false_iff] at h
+  obtain ⟨⟨r, ⟨e, ⟨he, hk⟩, hr⟩, rfl⟩, hne, hex⟩ := h
+  refine ⟨?_, hne, ?_⟩
+  · cases e <;> simp at hk
+    exact ⟨_, he, r, hr, rfl⟩
+  · intro x hx hpre
+    have := hex x hx
+    rw [List.isPrefixOf_iff_prefix.mpr hpre] at this
+    exact absurd this (by simp)
 
 
 theorem mem_updateEff {P : Paths} {doc : List Char} {t : Bool} {x : Eff}
@@ -122,9 +185,10 @@ theorem mem_rereadEff {P : Paths} {doc : List Char} {e t : Bool} {x : Eff}
 
 theorem mem_trace {P : Paths} {en : Entry} {x : Eff} (h : x ∈ trace P en) :
     (∃ p, x = .readFile p) ∨
-    x = .mkdirs (parent P.userDict) ∨ x = .createFile P.userDict ∨
-    (∃ doc, x = .mkdirs (parent (fileDictPath P doc)) ∨ x = .createFile (fileDictPath P doc)) ∨
-    x = .mkdirs (parent P.stats) ∨ x = .appendFile P.stats ∨
+    (x = .mkdirs (parent P.userDict) ∧ P.userDict ≠ []) ∨ x = .createFile P.userDict ∨
+    (∃ doc, (x = .mkdirs (parent (fileDictPath P doc)) ∧ fileDictPath P doc ≠ []) ∨
+      x = .createFile (fileDictPath P doc)) ∨
+    (x = .mkdirs (parent P.stats) ∧ P.stats ≠ []) ∨ x = .appendFile P.stats ∨
     (x = .listen [127, 0, 0, 1] 4000 ∧ en.isTcp = true) ∨ (x = .accept ∧ en.isTcp = true) ∨
     (∃ url, x = .spawnOpener url) := by
   cases en with
@@ -145,14 +209,14 @@ theorem mem_trace {P : Paths} {en : Entry} {x : Eff} (h : x ∈ trace P en) :
     obtain ⟨d, _, hd⟩ := h
     rcases mem_rereadEff hd with h | h | h <;> exact ⟨_, h⟩
   | addUser doc e t =>
-    simp only [trace, List.mem_append, List.mem_cons, List.not_mem_nil, or_false] at h
+    simp only [trace, List.mem_append, List.mem_cons, List.not_mem_nil, or_false, mem_saveDictEff] at h
     rcases h with (h | h | h) | h
     · left; exact ⟨_, h⟩
     · right; left; exact h
     · right; right; left; exact h
     · left; rcases mem_rereadEff h with h | h | h <;> exact ⟨_, h⟩
   | addFile doc e t =>
-    simp only [trace, List.mem_append, List.mem_cons, List.not_mem_nil, or_false] at h
+    simp only [trace, List.mem_append, List.mem_cons, List.not_mem_nil, or_false, mem_saveDictEff] at h
     rcases h with (h | h | h) | h
     · left; exact ⟨_, h⟩
     · right; right; right; left; exact ⟨doc, Or.inl h⟩
@@ -163,7 +227,7 @@ theorem mem_trace {P : Paths} {en : Entry} {x : Eff} (h : x ∈ trace P en) :
   | codeAction => simp [trace] at h
   | openUrl url => simp [trace] at h; exact Or.inr (Or.inr (Or.inr (Or.inr (Or.inr (Or.inr (Or.inr (Or.inr ⟨url, h⟩)))))))
   | shutdown =>
-    simp [trace] at h
+    simp only [trace, mem_saveStatsEff] at h
     rcases h with h | h
     · right; right; right; right; left; exact h
     · right; right; right; right; right; left; exact h
